@@ -330,3 +330,9 @@ func RunReplay(t *testing.T, harnesses map[string]func()) {
 		fmt.Println("VERIF-REPLAY-PASSED")
 	}
 }
+
+// Non-short-circuit boolean connectives: under the engine they build one term
+// instead of forking the path.
+func Imp(a, b bool) bool { return !a || b }
+func And(a, b bool) bool { return a && b }
+func Or(a, b bool) bool  { return a || b }
